@@ -119,8 +119,9 @@ fn check_characters_contract(_s: &str) -> Result<usize, CharError> {
 static mut STUB_USED: bool = false;
 
 macro_rules! segwit_feed {
-    ($name:ident, $n:expr, $total:expr) => {
+    ($name:ident, $n:expr, $total:expr, $unw:literal) => {
         #[kani::proof]
+        #[kani::unwind($unw)] // core::str::from_utf8 advances by a pointer-alignment dependent amount: CBMC needs a bound
         #[kani::stub(super::check_characters, check_characters_contract)]
         fn $name() {
             const N: usize = $n;           // data characters: version + payload + checksum
@@ -172,10 +173,10 @@ macro_rules! segwit_feed {
 }
 //@ harness: segwit_feed_l13 class=B tier=quick bound="string el1 + 13 lower-case data characters (version + 12 checksum), all contents; check_characters by contract" props=C17,C06 timeout=900
 //@ clause: SegwitHrpstring::new: version > 16 => InvalidWitnessVersion; else the error is Checksum(InvalidChecksum) IFF the reference PolyMod over ExpandHRP ++ version char ++ checksum differs from 1 (version 0) resp. 0x455972a3350f7a1 (version 1..16) — the version character is inside the checksummed data and selects the variant
-segwit_feed!(segwit_feed_l13, 13, 16);
+segwit_feed!(segwit_feed_l13, 13, 16, 19);
 //@ harness: segwit_feed_l17 class=B tier=quick bound="string el1 + 17 lower-case data characters (version, 4 payload, 12 checksum), all contents; check_characters by contract" props=C17,C06 timeout=900
 //@ clause: same with an acceptable payload: Ok => residue over ALL data characters equals the target of the version's variant; version character and 12 checksum characters are stripped only after validation
-segwit_feed!(segwit_feed_l17, 17, 20);
+segwit_feed!(segwit_feed_l17, 17, 20, 23);
 //@ harness: segwit_feed_l21 class=B tier=thorough bound="string el1 + 21 lower-case data characters (version, 8 payload, 12 checksum), all contents; check_characters by contract" props=C17,C06 timeout=1800
 //@ clause: same, 8 payload characters (5 bytes)
-segwit_feed!(segwit_feed_l21, 21, 24);
+segwit_feed!(segwit_feed_l21, 21, 24, 27);
